@@ -166,7 +166,7 @@ def gen_structured(rng, vocab):
 
 def corpus():
     out = set()
-    for p in glob.glob("/repo/tests/**/*.rs", recursive=True) + ["/repo/README.md", "/repo/src/lib.rs"]:
+    for p in glob.glob(build.REPO + "/tests/**/*.rs", recursive=True) + [build.REPO + "/README.md", build.REPO + "/src/lib.rs"]:
         try:
             txt = open(p, encoding="utf-8").read()
         except Exception:
